@@ -78,3 +78,55 @@ package aspect_elimination
 //@             && typeis(result[k].Evaluation, AspectEliminationEvaluation) && result[k].Evaluation.(AspectEliminationEvaluation).ThresholdsIndex == thresholdIndex + 1
 //@   loop 1 invariant [rest] (forall k int :: iter <= k && k < len(result) ==> result[k] == old(result[k])) && (forall k int :: iter <= k && k < len(resultIds) ==> resultIds[k] == old(resultIds[k]))
 //@   loop 1 invariant [input] unchanged(leftToChoice)
+
+// ---- the heuristic's main loop (C12, C01)
+
+//@ pred distinctIds(a []model.AlternativeWithCriteria) = forall i int, j int :: 0 <= i && i < j && j < len(a) ==> a[i].Id != a[j].Id
+//@ pred fromInput(x model.AlternativeWithCriteria, considered []model.AlternativeWithCriteria) = exists j int :: 0 <= j && j < len(considered) && x == considered[j]
+// failedOn: the reported single-criterion threshold names a criterion of the method on which the alternative is below it
+//@ pred failedOn(alt model.AlternativeWithCriteria, cs []model.WeightedCriterion, nst model.Weights) =
+//@      exists j int :: 0 <= j && j < len(cs) && cs[j].Criterion.Id in nst && model.signed(alt, cs[j].Criterion) < nst[cs[j].Criterion.Id] * model.mult(cs[j].Criterion)
+
+//@ func checkWithinSatisfactionLevels
+//@   property C12 C01
+//@   requires [distinct_alternatives] distinctIds(*considered)
+//@   ensures [every_alternative_once] fresh(result1) && fresh(result2) && len(result1) == len(*considered) && len(result2) == len(*considered)
+//@             && len(result0) <= len(*considered) && distinctIds(result0) && (len(*considered) >= 1 ==> len(result0) >= 1)
+//@   ensures [survivors_are_inputs] forall k int :: 0 <= k && k < len(result0) ==> fromInput(result0[k], *considered)
+//@   ensures [eliminated_entries] forall k int :: len(result0) <= k && k < len(*considered) ==> typeis(result1[k].Evaluation, AspectEliminationEvaluation) && result2[k] == result1[k].Alternative.Id
+//@             && 0 <= result1[k].Evaluation.(AspectEliminationEvaluation).ThresholdsIndex && result1[k].Evaluation.(AspectEliminationEvaluation).ThresholdsIndex <= result3
+//@             && fromInput(result1[k].Alternative, *considered)
+//@   ensures [eliminated_really_failed] forall k int :: len(result0) <= k && k < len(*considered) ==> failedOn(result1[k].Alternative, criteria, result1[k].Evaluation.(AspectEliminationEvaluation).NotSatisfiedThreshold)
+//@   ensures [reverse_elimination_order] forall k int, m int :: len(result0) <= k && k < m && m < len(*considered) ==>
+//@             result1[k].Evaluation.(AspectEliminationEvaluation).ThresholdsIndex >= result1[m].Evaluation.(AspectEliminationEvaluation).ThresholdsIndex
+//@   loop 1 invariant [ctx] fresh(result) && fresh(resultIds) && len(result) == len(*considered) && len(resultIds) == len(*considered) && thresholdIndex >= -1
+//@   loop 1 invariant [count] len(leftToChoice) >= 2 && resultInsertIndex == len(leftToChoice) - 1 && len(leftToChoice) <= len(*considered) && distinctIds(leftToChoice)
+//@   loop 1 invariant [left] forall k int :: 0 <= k && k < len(leftToChoice) ==> fromInput(leftToChoice[k], *considered)
+//@   loop 1 invariant [eliminated] forall k int :: resultInsertIndex < k && k < len(*considered) ==> typeis(result[k].Evaluation, AspectEliminationEvaluation) && resultIds[k] == result[k].Alternative.Id
+//@             && 0 <= result[k].Evaluation.(AspectEliminationEvaluation).ThresholdsIndex && result[k].Evaluation.(AspectEliminationEvaluation).ThresholdsIndex <= thresholdIndex
+//@             && fromInput(result[k].Alternative, *considered)
+//@   loop 1 invariant [failed] forall k int :: resultInsertIndex < k && k < len(*considered) ==> failedOn(result[k].Alternative, criteria, result[k].Evaluation.(AspectEliminationEvaluation).NotSatisfiedThreshold)
+//@   loop 1 invariant [order] forall k int, m int :: resultInsertIndex < k && k < m && m < len(*considered) ==>
+//@             result[k].Evaluation.(AspectEliminationEvaluation).ThresholdsIndex >= result[m].Evaluation.(AspectEliminationEvaluation).ThresholdsIndex
+//@   loop 2 invariant [ctx] fresh(result) && fresh(resultIds) && len(result) == len(*considered) && len(resultIds) == len(*considered) && thresholdIndex >= 0
+//@   loop 2 invariant [count] len(leftToChoice) >= 2 && resultInsertIndex == len(leftToChoice) - 1 && len(leftToChoice) <= len(*considered) && distinctIds(leftToChoice)
+//@   loop 2 invariant [left] forall k int :: 0 <= k && k < len(leftToChoice) ==> fromInput(leftToChoice[k], *considered)
+//@   loop 2 invariant [eliminated] forall k int :: resultInsertIndex < k && k < len(*considered) ==> typeis(result[k].Evaluation, AspectEliminationEvaluation) && resultIds[k] == result[k].Alternative.Id
+//@             && 0 <= result[k].Evaluation.(AspectEliminationEvaluation).ThresholdsIndex && result[k].Evaluation.(AspectEliminationEvaluation).ThresholdsIndex <= thresholdIndex
+//@             && fromInput(result[k].Alternative, *considered)
+//@   loop 2 invariant [failed] forall k int :: resultInsertIndex < k && k < len(*considered) ==> failedOn(result[k].Alternative, criteria, result[k].Evaluation.(AspectEliminationEvaluation).NotSatisfiedThreshold)
+//@   loop 2 invariant [order] forall k int, m int :: resultInsertIndex < k && k < m && m < len(*considered) ==>
+//@             result[k].Evaluation.(AspectEliminationEvaluation).ThresholdsIndex >= result[m].Evaluation.(AspectEliminationEvaluation).ThresholdsIndex
+//@   loop 3 invariant [ctx] fresh(result) && fresh(resultIds) && len(result) == len(*considered) && len(resultIds) == len(*considered) && thresholdIndex >= 0
+//@             && 0 <= iter2 - 1 && iter2 - 1 < len(criteria) && c == criteria[iter2 - 1]
+//@   loop 3 invariant [scan] len(tempAlternatives) >= 2 && len(tempAlternatives) <= len(leftToChoice) && len(leftToChoice) - len(tempAlternatives) <= iter && fresh(tempAlternatives) && arr(tempAlternatives) != arr(leftToChoice)
+//@             && forall k int :: iter <= k && k < len(leftToChoice) ==> tempAlternatives[k - (len(leftToChoice) - len(tempAlternatives))] == leftToChoice[k]
+//@   loop 3 invariant [kept_are_from_the_scan_start] forall k int :: 0 <= k && k < len(tempAlternatives) ==> exists j int :: 0 <= j && j < len(leftToChoice) && tempAlternatives[k] == leftToChoice[j]
+//@   loop 3 invariant [count] resultInsertIndex == len(tempAlternatives) - 1 && len(leftToChoice) <= len(*considered) && distinctIds(tempAlternatives) && distinctIds(leftToChoice)
+//@   loop 3 invariant [left] forall k int :: 0 <= k && k < len(leftToChoice) ==> fromInput(leftToChoice[k], *considered)
+//@   loop 3 invariant [eliminated] forall k int :: resultInsertIndex < k && k < len(*considered) ==> typeis(result[k].Evaluation, AspectEliminationEvaluation) && resultIds[k] == result[k].Alternative.Id
+//@             && 0 <= result[k].Evaluation.(AspectEliminationEvaluation).ThresholdsIndex && result[k].Evaluation.(AspectEliminationEvaluation).ThresholdsIndex <= thresholdIndex
+//@             && fromInput(result[k].Alternative, *considered)
+//@   loop 3 invariant [failed] forall k int :: resultInsertIndex < k && k < len(*considered) ==> failedOn(result[k].Alternative, criteria, result[k].Evaluation.(AspectEliminationEvaluation).NotSatisfiedThreshold)
+//@   loop 3 invariant [order] forall k int, m int :: resultInsertIndex < k && k < m && m < len(*considered) ==>
+//@             result[k].Evaluation.(AspectEliminationEvaluation).ThresholdsIndex >= result[m].Evaluation.(AspectEliminationEvaluation).ThresholdsIndex
